@@ -83,11 +83,63 @@ def _sub(rf, subst):
     return rf
 
 
+def _concrete_witness(rfs, subst):
+    """the rational functions mention symbols of lossy narrowing casts: find a length at which a cast really loses bits and evaluate
+    everything there (k and every wrap symbol get their concrete values); returns (k, values) or None"""
+    syms = set()
+    for x in rfs:
+        syms |= wlin.p_syms(x.n) | wlin.p_syms(x.d)
+    extra = syms - {'k'}
+    if not extra or any(s not in wlin.LOSSY for s in extra):
+        return None
+    fixed_k = next((v for s, v in subst if s == 'k'), None)
+    ks = [int(fixed_k)] if fixed_k is not None else range(wlin.PARAM_RANGE['kmin'], wlin.PARAM_RANGE['kmax'] + 1)
+    for k in ks:
+        env = {'k': k}
+        lossy_here = False
+        for s in extra:
+            poly, bits = wlin.LOSSY[s]
+            x = wlin.p_eval(poly.n, {'k': k}) if poly.n else 0
+            env[s] = int(x) % (1 << bits)
+            if env[s] != x:
+                lossy_here = True
+        if not lossy_here:
+            continue
+        try:
+            vals = []
+            for x in rfs:
+                d = wlin.p_eval(x.d, env)
+                if d == 0:
+                    vals.append(None)
+                else:
+                    vals.append(wlin.p_eval(x.n, env) / d)
+            return k, vals
+        except (KeyError, ZeroDivisionError):
+            return None
+    return None
+
+
 def _same(a, b, subst):
     if is_top(a) or is_top(b) or not isinstance(a, Aff) or not isinstance(b, Aff):
         return None
     try:
-        return a.lin == b.lin and _sub(a.w, subst).eq(_sub(b.w, subst)) and _sub(a.c, subst).eq(_sub(b.c, subst))
+        if a.lin != b.lin:
+            return False
+        aw, bw, ac, bc = _sub(a.w, subst), _sub(b.w, subst), _sub(a.c, subst), _sub(b.c, subst)
+        if aw.eq(bw) and ac.eq(bc):
+            return True
+        # a decided inequality must not rest on an uninterpreted symbol (sqrt, floor, ...): those may well be equal for every length
+        syms = set()
+        for x in (aw, bw, ac, bc):
+            syms |= wlin.p_syms(x.n) | wlin.p_syms(x.d)
+        if syms <= {'k'}:
+            return False
+        wit = _concrete_witness([aw, bw, ac, bc], subst)
+        if wit is not None:
+            k, (x1, x2, y1, y2) = wit
+            if x1 != x2 or y1 != y2:
+                return False
+        return None
     except Abstain:
         return None
 
@@ -129,7 +181,10 @@ def analyse(m, impl, is_ma):
         v.reason = 'parameter type %s is not the period type' % ptys[0]
         return v
     all_ok = True
+    pmax = {'u8': 255, 'u16': 65535}.get(ptys[0], 65535)
     for r in range(MOD):
+        wlin.PARAM_RANGE['kmin'] = 0 if r else 1
+        wlin.PARAM_RANGE['kmax'] = (pmax - r) // MOD
         try:
             def mk_new():
                 box = {'v': Aff(True, ONE, ZERO)}
@@ -301,6 +356,125 @@ def _run(ctx, which):
         res.floor('moving averages decided', DECIDED_FLOOR_MA, proved_ma + sum(1 for x in res.violations))
     else:
         res.floor('linear methods decided', DECIDED_FLOOR_ALL, proved_all + sum(1 for x in res.violations))
+    return res
+
+
+# ---------------------------------------------------------------------------------------------------------------
+# L01c: the purely recursive averages the property lists as non-negative are convex updates
+# ---------------------------------------------------------------------------------------------------------------
+CONVEX_KINDS = ('EMA', 'DMA', 'TMA', 'RMA', 'WSMA')     # C15: "kinds whose weights are non-negative", those without a window
+
+
+def _label(v, prefix=()):
+    if isinstance(v, Obj):
+        for k in list(v.f):
+            x = v.f[k]
+            if isinstance(x, Aff) and x.lin:
+                v.f[k] = Aff(True, x.w, x.c, x.isint, {'/'.join(prefix + (k,)): ONE})
+            else:
+                _label(x, prefix + (k,))
+
+
+def _sign_for_all_lengths(rf):
+    """'nonneg' when rf >= 0 for every k in the parameter range by a certificate (after the shift k = kmin + j both numerator and
+    denominator have coefficients of one sign), ('neg', k) with a witness length, or None"""
+    if wlin.p_syms(rf.n) | wlin.p_syms(rf.d) - {'k'} and not (wlin.p_syms(rf.n) | wlin.p_syms(rf.d)) <= {'k'}:
+        return None
+    kmin, kmax = wlin.PARAM_RANGE['kmin'], wlin.PARAM_RANGE['kmax']
+    shift = RF.sym('k') + RF.const(kmin)
+
+    def shifted(poly):
+        out = RF.const(0)
+        for mono, c in poly.items():
+            term = RF.const(c)
+            for s_, e in mono:
+                for _ in range(e):
+                    term = term * shift
+            out = out + term
+        return out.n
+    n2, d2 = shifted(rf.n), shifted(rf.d)
+    sn = {c > 0 for c in n2.values()}
+    sd = {c > 0 for c in d2.values()}
+    if len(sd) == 1 and len(sn) <= 1:
+        if not sn or sn == sd:
+            return 'nonneg'
+    for k in range(kmin, min(kmax, kmin + 4000) + 1):
+        d = wlin.p_eval(rf.d, {'k': k})
+        if d == 0:
+            continue
+        if wlin.p_eval(rf.n, {'k': k}) / d < 0:
+            return ('neg', k)
+    return 'nonneg' if kmax - kmin <= 4000 else None
+
+
+def rule_L01_convex(ctx):
+    m = Model(ctx.facts())
+    f = m.f
+    res = RuleResult('L01c', 'the recursive averages with non-negative weights (EMA, DMA, TMA, RMA, WSMA) update every state value and the output as a '
+                             'convex combination of the input and the previous state values, for every accepted length: the output never leaves the range of the values seen')
+    done = 0
+    for impl in m.method_impls:
+        adt = m.adt_path_of_impl(impl)
+        short = adt.rsplit('::', 1)[-1] if adt else None
+        if short not in CONVEX_KINDS:
+            continue
+        nb = m.body(m.impl_fn_path(impl, 'new'))
+        xb = m.body(m.impl_fn_path(impl, 'next'))
+        pmax = {'u8': 255, 'u16': 65535}.get(nb.local_ty(1), 65535)
+        ok = True
+        for r in range(MOD):
+            wlin.PARAM_RANGE['kmin'] = 0 if r else 1
+            wlin.PARAM_RANGE['kmax'] = (pmax - r) // MOD
+            try:
+                def mk_new():
+                    box = {'v': Aff(True, ONE, ZERO)}
+                    return [_param_value(None, r), Ref(box, 'v')]
+                for crun, cargs, cres in explore(f, nb, mk_new):
+                    if not (isinstance(cres, Obj) and cres.variant == 'Ok'):
+                        continue
+                    sub0, infeasible = _apply_assumptions(crun.assume)
+                    if infeasible is True:
+                        continue
+                    s0 = cres.f.get('0')
+                    if not isinstance(s0, Obj):
+                        raise Abstain('constructed value is not tracked')
+                    # accepted lengths of this class: upper bounds the constructor tests (WSMA: length <= MAX/2) are not modelled, the
+                    # certificate is asked for the whole class, which is stronger
+
+                    def mk_next(s0=s0):
+                        st = copy.deepcopy(s0)
+                        _label(st)
+                        box = {'s': st, 'x': Aff(True, ONE, ZERO, False, {'input': ONE})}
+                        return [Ref(box, 's'), Ref(box, 'x')]
+                    for run, args, out in explore(f, xb, mk_next):
+                        sub, infeasible = _apply_assumptions(crun.assume + run.assume)
+                        if infeasible is True:
+                            continue
+                        if run.data_dependent or infeasible:
+                            raise Abstain('data-dependent path')
+                        targets = [('output', out)] + [('/'.join(p), x) for p, x in leaves(args[0].get()) if isinstance(x, Aff) and x.lin]
+                        for name, val in targets:
+                            key = '%s|%s|n=%dk+%d' % (short, name, MOD, r)
+                            res.inst(key)
+                            if not isinstance(val, Aff) or val.co is None:
+                                raise Abstain('%s: coefficients not tracked' % name)
+                            for atom, coef in sorted(val.co.items()):
+                                sg = _sign_for_all_lengths(_sub(coef, sub))
+                                if sg is None:
+                                    raise Abstain('%s: sign of the coefficient of %s not decided' % (name, atom))
+                                if sg != 'nonneg':
+                                    res.violate('%s|%s|%s' % (short, name, atom),
+                                                '%s::next gives the %s a coefficient %s of %s that is negative at length %d: the update is not a convex '
+                                                'combination, so the average can leave the range of the values it has been given' % (
+                                                    short, name if name == 'output' else 'state value ' + name, coef, atom, MOD * sg[1] + r), xb.file, xb.line)
+                                    ok = False
+            except Abstain as e:
+                res.undecided.append('%s: %s' % (short, e))
+                ok = False
+        if ok:
+            done += 1
+            res.sample({'kind': short, 'verdict': 'every coefficient of the update is non-negative for every length; with coefficient sum 1 (L01) the update is convex'})
+    res.floor('convex kinds decided', 5, done + len({v.key.split('|')[0] for v in res.violations}))
     return res
 
 
